@@ -29,6 +29,7 @@ inductive COpA
   | allocArray (count size : Nat)          -- `allocate_array(count, size)`
   | tryAllocArray (count size : Nat)       -- `try_allocate_array(count, size)`
   | deallocArray (j : Nat)                 -- `deallocate_array(ptr, count, size)` of the `j`-th array the caller holds
+  | reserve (size capacity : Nat)          -- `reserve(size, capacity)`: more memory for the bucket of `size`
 deriving Repr, DecidableEq
 
 /-- number of cells of the bucket with nodes of `ns` bytes that an array of `count * size` bytes occupies -/
@@ -53,6 +54,9 @@ def GCollA.step (cfg : Cfg) (e : EnvS) (g : GCollA) (k : Nat) : COpA → GCollA 
     let r := g.c.tryAllocateArray cfg count size
     ({ c := r.st, live := ledgerArr r.st g.live count size r.out,
        arrs := match r.out with | .ok a => (a, count, size) :: g.arrs | _ => g.arrs }, k)
+  | .reserve size capacity =>
+    let r := g.c.reserveOp cfg size capacity [e k]
+    ({ g with c := r.st }, k + usedAnswers r.ev)
   | .deallocArray j =>
     match g.arrs[j]? with
     | none => (g, k)
